@@ -2,7 +2,7 @@
 import random
 from .. import core, sysgen, reader
 
-MODULES = ['DsdVerif.Props.C14']
+MODULES = ['DsdVerif.Props.C14', 'DsdVerif.Props.C14Numerals']
 GEN_FILES = ['IupacTables', 'Grammars']
 THEOREM_NAMES = ['ignore_skips', 'ignored_reaction_survives', 'reaction_missing_member', 'complement_sequence',
                  'complement_sequence_strong', 'non_iupac_rejected', 'failed_read_restores', 'sl_domain_length_mismatch',
@@ -11,7 +11,8 @@ THEOREM_NAMES = ['ignore_skips', 'ignored_reaction_survives', 'reaction_missing_
                  'read_pil_domains_text', 'read_pil_strands_text', 'read_pil_complexes_text', 'read_pil_kernels_text',
                  'read_macrostates_sigma', 'macrostate_redeclared', 'read_reactions_sigma', 'reaction_redeclared',
                  'read_xkernels_sigma', 'read_pil_macrostates_text', 'read_pil_reactions_text', 'e2_readPil', 'e2_from_theorems']
-THEOREMS = ['Dsd.C14.' + t for t in THEOREM_NAMES] + ['Dsd.TextSig.render_parses', 'Dsd.TextSig.render_parses6']
+THEOREMS = ['Dsd.C14.' + t for t in THEOREM_NAMES] + ['Dsd.TextSig.render_parses', 'Dsd.TextSig.render_parses6'] + \
+    ['Dsd.C14.' + t for t in ('lenTok_repr', 'digits_repr', 'lengthDecl_ok', 'read_pil_lengths_text')]     # int(str(l)) = l: numerals without hypothesis
 ASSUMPTIONS = [
     'consistent systems are generated from an abstract model (domains with lengths or IUPAC sequences, strands / composite domains, '
     'complexes in kernel and strand notation, concentrations, macrostates named after a member, detailed and condensed reactions, '
@@ -54,7 +55,8 @@ MANIFEST = {
             'component theorems of C01, C02, C12/C13 (kernel_rt, resolve_kernel_inverse) and C17. The numeric interpretation of rate / '
             'concentration literals (float, flint) has no theorem: for it the property is decided on the real reader by an independent abstract model of PIL '
             'systems (all attributes, identical singletons, `ignore`, line vs document, several documents per configured session) plus '
-            'the model correspondence.',
+            'the model correspondence.'
+            ' Numerals: lenTok_repr (int(str(l)) = l in the form the reader theorems need, from the core lemma Nat.toNat?_repr), digits_repr and read_pil_lengths_text discharge the side condition on length tokens for every decimal numeral, so `length n = l` is read as a domain of length l for every l without a hypothesis about int().',
     'note': 'End-to-end exactness is a theorem for all five kinds of object (kernel strings without composite domains; numbers as literals); the rest is '
             'established by exploration on the real code plus model correspondence; trusted base as in DESIGN.md section 3.',
     'technique': 'Lean 4 model of the whole reader: end-to-end theorems for systems of all five object kinds, on token trees and on rendered text; clause theorems; correspondence on generated systems; model-based oracle',
